@@ -585,7 +585,9 @@ func (e *streamExec) prepareContainer() bool {
 		o.Violate("C18", "write-bytes-differ", "stream container write differs from the buffered write (after normalising entry order)", map[string]string{"api": e.p.API})
 	}
 	e.wcalls, e.wsizes = sw.calls, sw.sizes
-	o.Logf("container artefact api=%s entries=%d len=%d wcalls=%d", e.p.API, len(entries), len(ref), e.wcalls)
+	// (the number of write calls a base64 writer issues depends on the order in which the
+	// Writer's map hands out entries of different sizes: it is kept out of the event log)
+	o.Logf("container artefact api=%s entries=%d len=%d", e.p.API, len(entries), len(ref))
 	return true
 }
 
